@@ -17,4 +17,36 @@ PROPS = {
         ],
         trusted=['T3 std::io::Error modelled as an opaque value with os_code(); libc FALLOC_FL_* constants as on x86_64-linux-gnu'],
     ),
+    'C06': dict(
+        vx_units=['vfs'], kx=[],
+        design_ref='DESIGN.md section 5, C06',
+        not_covered=[
+            'symlink / hard-link / rename-of-directory-in-use semantics, O_NOFOLLOW, /proc/self/fd re-opening: kernel semantics behind libc calls',
+            'the name checks at the twelve call sites inside passthrough mutators (functions made of syscalls; no partial extraction)',
+            'PassthroughFs::do_lookup ".." -> "." rewrite at the export root',
+        ],
+        trusted=['T3 CStr modelled as a NUL-free byte sequence (axiom_cstr_no_nul); <[u8]>::contains by assume_specification; byte-string constants CURRENT_DIR_CSTR/PARENT_DIR_CSTR by R11',
+                 'T8 backends behind the VFS are arbitrary (uninterpreted results) and are reached only through capability-guarded calls'],
+    ),
+    'C07': dict(
+        vx_units=['vfs'], kx=[],
+        design_ref='DESIGN.md section 5, C07',
+        not_covered=[
+            'mount / over-mount / umount / index allocation histories (Vfs::mount*, insert_mount_locked, umount, allocate_fs_idx): ArcSwap stores and atomics on &self; routing is proved for an ARBITRARY table state satisfying Vfs::wf()',
+            'readdir / readdirplus of the VFS and of PseudoFs (&mut dyn FnMut closures): so "the same number in lookup, getattr, readdir and readdirplus" is covered for lookup/getattr/entry-returning operations only',
+            'that result-less forget reaches the backend at least once (capabilities can forbid calls, not demand them)',
+        ],
+        trusted=['T3 ArcSwap as a sequential cell (`cur`), std HashMap/Vec via vstd, Arc clone = same value (axiom_arc_cloned), Result::and_then by assume_specification',
+                 'T8 table invariant Vfs::wf()/mount_wf(): 256 slots, mountpoint inode numbers fit in 56 bits, mount indices are non-zero, root_entry is stored converted - established by insert_mount_locked/allocate_fs_idx, which are not covered'],
+    ),
+    'C14': dict(
+        vx_units=['vfs'], kx=[],
+        design_ref='DESIGN.md section 5, C14',
+        not_covered=[
+            'slot hygiene across mount / over-mount / umount histories (mount_with_id_mapping, insert_mount_locked, umount store through ArcSwap on &self): the clause "regardless of which mounts previously occupied its slot" is NOT decided (DESIGN.md section 7, D6)',
+            'readdirplus closures (owner ids of entries delivered by readdirplus)',
+            'the order of the two stores in mount_with_id_mapping (mapping before insertion)',
+        ],
+        trusted=['T3 as for C07', 'T8 every configured mapping satisfies internal+range <= 2^32 and external+range <= 2^32 (map_ok; Vfs::new never validates it - DESIGN.md section 7, O2)'],
+    ),
 }
